@@ -296,52 +296,82 @@ pub fn gen_c16(seed: u64, tier: Tier) -> CaseSet {
         let n = stakes.len() as u64;
         let complete = n <= 17;
         let owns: Vec<u64> = if complete { (0..n).collect() } else { let mut v = vec![0, n - 1]; for _ in 0..3 { v.push(rng.below(n)); } v.sort(); v.dedup(); v };
-        // one instance per own id; half of them constructed with the default fanout and switched afterwards
-        let insts: Vec<(Turbine<RecNet>, RecNet)> = owns.iter().enumerate().map(|(k, own)| {
+        // THREE independently constructed instances per own id (half of them constructed with the default
+        // fanout and switched afterwards); each is asked the same triples in a different order
+        let mk_inst = |k: usize, own: u64| -> (Turbine<RecNet>, RecNet) {
             let net = RecNet::default();
-            let t = Turbine::new(net.clone(), epoch(&infos, *own));
+            let t = Turbine::new(net.clone(), epoch(&infos, own));
             let t = if k % 2 == 0 { t.with_fanout(fanout as usize) } else { t.with_fanout(7).with_fanout(fanout as usize) };
             (t, net)
-        }).collect();
-        let ntrees = if n >= 1000 { 1 } else if n >= 200 { 3 } else if thorough { 24 } else { 8 };
+        };
+        let insts: Vec<Vec<(Turbine<RecNet>, RecNet)>> = owns.iter().enumerate().map(|(k, own)| (0..3).map(|v| mk_inst(k + v, *own)).collect()).collect();
+        // triples: blocks with several slices in one slot, the same index within the slice in every slice,
+        // two slots.  A tree cached under (slot, index within the slice) instead of (slot, index in the slot),
+        // or under the slot alone, makes the answer depend on what was asked first.
+        let slot_a = if i % 3 == 0 { 0 } else { rng.next() >> rng.below(60) };
+        let slot_b = if i % 4 == 1 { u64::MAX } else { slot_a.wrapping_add(1 + rng.below(7)) };
+        let sh_a = rng.below(TOTAL_SHREDS as u64);
+        let sh_b = if i % 2 == 0 { TOTAL_SHREDS as u64 - 1 } else { 0 };
+        let slice_c = 2 + rng.below(1022);
+        let mut triples: Vec<(u64, u64, u64)> = Vec::new();
+        if n >= 1000 {
+            triples.push((slot_a, 0, sh_a)); triples.push((slot_a, 1, sh_a));
+        } else if n >= 200 {
+            for sl in [0u64, 1] { triples.push((slot_a, sl, sh_a)); }
+            triples.push((slot_b, 1, sh_a)); triples.push((slot_a, 1, sh_b));
+        } else {
+            for slot in [slot_a, slot_b] { for sl in [0u64, 1, slice_c] { for sh in [sh_a, sh_b] { triples.push((slot, sl, sh)); } } }
+            if !thorough { triples.truncate(10); }
+        }
+        let ntrees = triples.len();
+        // query orders: instance 0 as listed (slice 0 first), instance 1 reversed (other slot first, slice 1
+        // before slice 0), instance 2 grouped by shred index with the slices descending, and asked twice
+        let orders: Vec<Vec<usize>> = {
+            let fwd: Vec<usize> = (0..ntrees).collect();
+            let mut rev = fwd.clone(); rev.reverse();
+            let mut inter = fwd.clone(); inter.sort_by_key(|t| (triples[*t].2, std::cmp::Reverse(triples[*t].1), triples[*t].0));
+            vec![fwd, rev, inter]
+        };
         let cid = o.cases.len() as u64;
-        let mut trees_txt = Vec::new();
         let mut evals = 0;
-        let mut prev: (u64, u64, u64) = (0, 0, 0);
-        for j in 0..ntrees {
-            // neighbouring trees share the slot (other shred) or the shred coordinates (other slot)
-            let slot = match j { 0 => 0, 1 => u64::MAX, _ => if j % 3 == 2 { prev.0 } else { rng.next() >> rng.below(60) } };
-            let slice = match j { 0 => 0, 1 => 1023, _ => if j % 3 == 0 { prev.1 } else { rng.below(1024) } };
-            let sh = match j { 0 => 0, 1 => TOTAL_SHREDS as u64 - 1, _ => if j % 3 == 0 { prev.2 } else { rng.below(TOTAL_SHREDS as u64) } };
-            prev = (slot, slice, sh);
-            let shred = maker.shreds(slot, slice)[sh as usize].clone();
-            let mut obs = Vec::new();
-            // query order differs between trees; every third tree is queried twice (warm cache)
-            let mut order: Vec<usize> = (0..owns.len()).collect();
-            if j % 2 == 1 { order.reverse(); }
-            let mut got: Vec<Option<(u64, Vec<u64>)>> = vec![None; owns.len()];
-            for rep in 0..(if j % 3 == 2 { 2 } else { 1 }) {
-                for k in &order {
-                    let (t, net) = &insts[*k];
-                    net.drain();
-                    let ok = catch_unwind(AssertUnwindSafe(|| { block_on(t.send(&shred)).unwrap(); block_on(t.forward(&shred)).unwrap(); })).is_ok();
-                    let log = net.drain();
-                    let r = if ok && log.len() == 2 && !log[0].0 && log[0].1.len() == 1 && log[1].0 {
-                        Some((log[0].1[0] as u64 - 1, log[1].1.iter().map(|p| *p as u64 - 1).collect::<Vec<_>>()))
-                    } else { None };
-                    if rep == 1 && got[*k] != r { got[*k] = None; } else { got[*k] = r; }
+        // views[tree][own] = answers of instance 0, instance 1, instance 2 (cold), instance 2 (warm)
+        let mut views: Vec<Vec<Vec<Option<(u64, Vec<u64>)>>>> = vec![vec![Vec::new(); owns.len()]; ntrees];
+        let ask = |t: &Turbine<RecNet>, net: &RecNet, shred: &Shred| -> Option<(u64, Vec<u64>)> {
+            net.drain();
+            let ok = catch_unwind(AssertUnwindSafe(|| { block_on(t.send(shred)).unwrap(); block_on(t.forward(shred)).unwrap(); })).is_ok();
+            let log = net.drain();
+            if ok && log.len() == 2 && !log[0].0 && log[0].1.len() == 1 && log[1].0 {
+                Some((log[0].1[0] as u64 - 1, log[1].1.iter().map(|p| *p as u64 - 1).collect::<Vec<_>>()))
+            } else { None }
+        };
+        for (v, order) in orders.iter().enumerate() {
+            for t in order {
+                let (slot, slice, sh) = triples[*t];
+                let shred = maker.shreds(slot, slice)[sh as usize].clone();
+                for k in 0..owns.len() {
+                    let (inst, net) = &insts[k][v];
+                    views[*t][k].push(ask(inst, net, &shred));
                     evals += 1;
+                    if v == 2 { views[*t][k].push(ask(inst, net, &shred)); evals += 1; }
                 }
             }
+        }
+        let mut trees_txt = Vec::new();
+        for (t, (slot, slice, sh)) in triples.iter().enumerate() {
+            let mut obs = Vec::new();
+            let mut same = true;
             for (k, own) in owns.iter().enumerate() {
-                obs.push(format!("({}, {})", cf::n(*own), match &got[k] { Some((r, ch)) => format!("(Some ({}, {}))", cf::n(*r), r_list(ch)), None => "None".into() }));
+                let vs = &views[t][k];
+                if vs.iter().any(|x| *x != vs[0]) { same = false; }
+                obs.push(format!("({}, {})", cf::n(*own), cf::list(&vs.iter().map(|g| match g { Some((r, ch)) => format!("(Some ({}, {}))", cf::n(*r), r_list(ch)), None => "None".into() }).collect::<Vec<_>>())));
             }
-            let roots: HashSet<Option<u64>> = got.iter().map(|g| g.as_ref().map(|x| x.0)).collect();
-            o.sigs.push((cid, 1 + j as u64, format!("turbine:tree:{}", if roots.len() == 1 && !roots.contains(&None) { "one-root" } else { "roots-differ-or-panic" })));
-            trees_txt.push(format!("({}, {}, {}, {})", cf::n(slot), cf::n(slice), cf::n(sh), cf::list(&obs)));
+            let roots: HashSet<Option<u64>> = views[t].iter().map(|vs| vs[0].as_ref().map(|x| x.0)).collect();
+            let class = if !same { "instances-disagree" } else if roots.len() == 1 && !roots.contains(&None) { "one-view" } else { "roots-differ-or-panic" };
+            o.sigs.push((cid, 1 + t as u64, format!("turbine:tree:{}", class)));
+            trees_txt.push(format!("({}, {}, {}, {})", cf::n(*slot), cf::n(*slice), cf::n(*sh), cf::list(&obs)));
         }
         let txt = format!("(C16Turbine {} {} {} {} {})", cf::n(cid), r_list(&stakes), cf::n(fanout), cf::b(complete), cf::list(&trees_txt));
-        o.push(txt, format!("case {}: Turbine fanout {} on {} validators ({}{}), {} instances, {} trees", cid, fanout, n, famname, if zeros { ", two zero stakes" } else { "" }, owns.len(), ntrees), evals, true, "turbine-trees");
+        o.push(txt, format!("case {}: Turbine fanout {} on {} validators ({}{}), 3 instances for each of {} own ids, {} trees (slots {} / {}, slices 0 / 1 / {})", cid, fanout, n, famname, if zeros { ", two zero stakes" } else { "" }, owns.len(), ntrees, slot_a, slot_b, slice_c), evals, true, "turbine-trees");
     }
 
     // ---------------- loss-free runs on the recording network ----------------
